@@ -158,33 +158,9 @@ func effParam(p *otp.Param, def otp.Param) otp.Param {
 }
 
 // ---------------- C01 ----------------
-func genC01(r *rng, n int, emit func(string)) {
-	// exhaustive small domains first: the modulus table, truncation at all 16 offsets,
-	// both formatters for every digits value around their ranges
-	for i := 0; i <= 10; i++ {
-		emit(fmt.Sprintf("mod10 %d", i))
-	}
-	for _, hl := range []int{20, 32, 64} {
-		for off := 0; off < 16; off++ {
-			for _, fill := range []int{0, 1, 2, 3} {
-				sum := make([]byte, hl)
-				switch fill {
-				case 1:
-					for i := range sum {
-						sum[i] = 0xff
-					}
-				case 2, 3:
-					copy(sum, r.bytes(hl))
-				}
-				sum[hl-1] = sum[hl-1]&0xf0 | byte(off)
-				for _, d := range []int{1, 6, 8, 9, 10} {
-					emit(fmt.Sprintf("trunc %s %d", hx(sum), hkMod10()[d]))
-				}
-			}
-		}
-	}
-	// values for the formatters (uint32): every power of ten with its neighbours and its multiples, every value a
-	// literal of the sources names (with neighbours), the small values exhaustively, the extremes, random ones
+// formatterValues: values for the decimal formatters (uint32): every power of ten with its neighbours and its multiples,
+// every value a literal of the sources names (with neighbours), the small values exhaustively, the extremes, random ones
+func formatterValues(r *rng) []uint64 {
 	vals := []uint64{2147483647, 2147483648, 4294967295, 4294967294}
 	seenV := map[uint64]bool{}
 	addV := func(v uint64) {
@@ -211,6 +187,35 @@ func genC01(r *rng, n int, emit func(string)) {
 	for i := 0; i < 40; i++ {
 		addV(r.next() >> uint(32+r.intn(32)))
 	}
+	return vals
+}
+
+func genC01(r *rng, n int, emit func(string)) {
+	// exhaustive small domains first: the modulus table, truncation at all 16 offsets,
+	// both formatters for every digits value around their ranges
+	for i := 0; i <= 10; i++ {
+		emit(fmt.Sprintf("mod10 %d", i))
+	}
+	for _, hl := range []int{20, 32, 64} {
+		for off := 0; off < 16; off++ {
+			for _, fill := range []int{0, 1, 2, 3} {
+				sum := make([]byte, hl)
+				switch fill {
+				case 1:
+					for i := range sum {
+						sum[i] = 0xff
+					}
+				case 2, 3:
+					copy(sum, r.bytes(hl))
+				}
+				sum[hl-1] = sum[hl-1]&0xf0 | byte(off)
+				for _, d := range []int{1, 6, 8, 9, 10} {
+					emit(fmt.Sprintf("trunc %s %d", hx(sum), hkMod10()[d]))
+				}
+			}
+		}
+	}
+	vals := formatterValues(r)
 	for d := -1; d <= 12; d++ {
 		for _, v := range vals {
 			emit(fmt.Sprintf("short %d %d", v, d))
@@ -414,6 +419,11 @@ func genC03Rand(r *rng, n int, emit func(string)) {
 			code = mutateCode(r, code)
 		}
 		emit(fmt.Sprintf("vhotp %s %s %d %s", hxs(s), hxs(code), c, fmtParam(p)))
+		if i%8 == 1 { // the code of counter cc at a counter that a narrower integer type would confuse with it
+			delta := pick(r, []uint64{1 << 32, 1 << 31, 1 << 16, 1 << 8, 1 << 33, 1 << 63})
+			emit(fmt.Sprintf("vhotp %s %s %d %s", hxs(s), hxs(refHOTP(key, cc, ep.Digits.Int(), uint64(ep.Algorithm))), cc+delta, fmtParam(p)))
+			emit(fmt.Sprintf("vhotp %s %s %d %s", hxs(s), hxs(refHOTP(key, cc, ep.Digits.Int(), uint64(ep.Algorithm))), cc-delta, fmtParam(p)))
+		}
 		if i%4 == 0 { // generate at cc, validate the returned string itself at c
 			emit(fmt.Sprintf("gvhotp %s %d %d %s", hxs(s), cc, c, fmtParam(p)))
 		}
@@ -496,6 +506,12 @@ func genC04Rand(r *rng, n int, emit func(string)) {
 			code = mutateCode(r, code)
 		}
 		emit(fmt.Sprintf("vtotp %s %s %s %s", hxs(s), hxs(code), genTime(r, sec), fmtParam(p)))
+		if i%8 == 1 && p != nil { // a period that a narrower integer type would confuse with this one
+			q := *p
+			q.Period = uint(per + 1<<32)
+			emit(fmt.Sprintf("vtotp %s %s %s %s", hxs(s), hxs(refHOTP(key, uint64(sec)/per, ep.Digits.Int(), uint64(ep.Algorithm))), genTime(r, sec), fmtParam(&q)))
+			emit(fmt.Sprintf("gtotp %s %s %s", hxs(s), genTime(r, sec), fmtParam(&q)))
+		}
 		if i%4 == 0 { // generate at a neighbouring step, validate the returned string itself at sec
 			sec2 := int64(step * per)
 			if sec2 >= 0 && uint64(sec2)/per == step {
@@ -654,7 +670,7 @@ func genC05(r *rng, n int, emit func(string)) {
 		}
 	}
 	for d := -1; d <= 12; d++ {
-		for _, v := range []uint64{0, 7, 1234567890, 2147483647, 4294967295, r.next() >> 33} {
+		for _, v := range formatterValues(r) {
 			emit(fmt.Sprintf("fmtdec %d %d", v, d))
 		}
 	}
